@@ -152,8 +152,14 @@ type Exec struct {
 	mutOK int
 	// the previous rule check found a basic directory above the rule
 	aboveBefore bool
-	findHit     bool
-	bigList     bool
+	// sticky: the directory is sharded below the rule because of the link-count clause
+	belowMaxlinks bool
+	// fault injection: the DAG service refuses this sub-shard block (after `faultreload`)
+	last    opInfo          // what the rule monitor needs to know about the operation just performed
+	plain   ipld.DAGService // the un-faulted service (observation only)
+	fault   *faultDS
+	findHit bool
+	bigList bool
 }
 
 func mtimeOf(sec int64, nsec int) time.Time {
@@ -207,6 +213,8 @@ func errTok(err error) string {
 	switch {
 	case err == nil:
 		return "ok"
+	case errors.Is(err, errFault):
+		return "fault"
 	case errors.Is(err, os.ErrNotExist):
 		return "notfound"
 	case strings.Contains(err.Error(), "maxLinks reached"):
@@ -381,6 +389,8 @@ func (e *Exec) step(f []string) {
 		}
 		e.oracle = map[string]string{}
 		e.aboveBefore = false
+		e.belowMaxlinks = false
+		e.fault, e.plain = nil, nil
 		d, err := e.cfg.build(e.dserv)
 		if err != nil {
 			e.d = nil
@@ -406,7 +416,9 @@ func (e *Exec) step(f []string) {
 		}
 		before := e.settings()
 		kb := e.kindNow()
+		e.prepOp(name, pn)
 		err := e.d.AddChild(e.ctx, name, pn.Node)
+		e.last.ok = err == nil
 		r := errTok(err)
 		_, existed := e.oracle[name]
 		if err == nil {
@@ -421,6 +433,7 @@ func (e *Exec) step(f []string) {
 			o.Kind("add-" + r)
 			// map property: adding can only fail for the documented reasons
 			switch {
+			case r == "fault" && e.fault != nil:
 			case r == "maxlinks" && kb == "hamt":
 				o.Fail("hamt-switch-maxlinks", "AddChild(%q) on a HAMT directory failed with maxLinks reached (aborted HAMT->basic conversion)", name)
 			case r == "maxlinks" && kb == "basic" && !existed && !(before.maxLinks > 0 && len(e.oracle)+1 > before.maxLinks):
@@ -439,10 +452,13 @@ func (e *Exec) step(f []string) {
 		e.setHash(name, f[2])
 		before := e.settings()
 		kb := e.kindNow()
+		e.prepOp(name, nil)
 		err := e.d.RemoveChild(e.ctx, name)
+		e.last.ok = err == nil
 		r := errTok(err)
 		_, existed := e.oracle[name]
 		switch {
+		case r == "fault" && e.fault != nil:
 		case r == "maxlinks" && kb == "hamt":
 			o.Fail("hamt-switch-maxlinks", "RemoveChild(%q) on a HAMT directory failed with maxLinks reached (aborted HAMT->basic conversion)", name)
 		case existed && err != nil:
@@ -468,6 +484,11 @@ func (e *Exec) step(f []string) {
 		nd, err := e.d.Find(e.ctx, name)
 		want, existed := e.oracle[name]
 		if err != nil {
+			if e.fault != nil && errTok(err) == "fault" {
+				o.Kind("find-fault")
+				o.Emit("fault")
+				return
+			}
 			if existed || errTok(err) != "notfound" {
 				o.Fail("find", "Find(%q)=%s, map has %q", name, errTok(err), want)
 			}
@@ -487,7 +508,11 @@ func (e *Exec) step(f []string) {
 		}
 		ls, err := e.d.Links(e.ctx)
 		if err != nil {
-			o.Fail("listing-links", "Links: %v", err)
+			// enumeration APIs: either an error is reported or the listing is the complete map
+			if !(e.fault != nil && errTok(err) == "fault") {
+				o.Fail("listing-links", "Links: %v", err)
+			}
+			o.Kind("list-" + errTok(err))
 			o.Emit("%s", errTok(err))
 			return
 		}
@@ -508,7 +533,12 @@ func (e *Exec) step(f []string) {
 			es = append(es, entry{r.Link.Name, r.Link.Cid.String(), r.Link.Size})
 		}
 		if ferr != nil {
-			o.Fail("listing-async", "EnumLinksAsync: %v", ferr)
+			if !(e.fault != nil && errTok(ferr) == "fault") {
+				o.Fail("listing-async", "EnumLinksAsync: %v", ferr)
+			}
+			o.Kind("async-" + errTok(ferr))
+			o.Emit("%s", errTok(ferr))
+			return
 		}
 		e.checkListing("async", es)
 		o.Emit("%s", fmtEntries(es, true))
@@ -522,7 +552,12 @@ func (e *Exec) step(f []string) {
 			return nil
 		})
 		if err != nil {
-			o.Fail("listing-each", "ForEachLink: %v", err)
+			if !(e.fault != nil && errTok(err) == "fault") {
+				o.Fail("listing-each", "ForEachLink: %v", err)
+			}
+			o.Kind("each-" + errTok(err))
+			o.Emit("%s", errTok(err))
+			return
 		}
 		e.checkListing("each", es)
 		o.Kind("each-" + e.kindNow())
@@ -537,7 +572,7 @@ func (e *Exec) step(f []string) {
 			return
 		}
 		e.checkDigitPaths(nd, nil)
-		o.Emit("%s", DumpDag(e.ctx, e.dserv, nd))
+		o.Emit("%s", DumpDag(e.ctx, e.plainDS(), nd))
 	case "reload":
 		if !e.need() {
 			return
@@ -569,6 +604,44 @@ func (e *Exec) step(f []string) {
 		e.cfg.maxLinks, e.cfg.fanout, e.cfg.pmode, e.cfg.pthr = 0, 0, "-", 0
 		o.Kind("reload-" + e.kindNow())
 		o.Emit("ok | %s", e.state(false))
+	case "faultreload":
+		// reload from the root node through a DAG service that refuses the k-th sub-shard block
+		// (DFS pre-order of the serialised DAG; no sub-shard: plain reload)
+		if !e.need() {
+			return
+		}
+		nd, err := e.d.GetNode()
+		if err == nil {
+			err = e.dserv.Add(e.ctx, nd)
+		}
+		if err != nil {
+			o.Emit("%s", errTok(err))
+			return
+		}
+		var subs []cid.Cid
+		var paths []string
+		collectSubShards(e.ctx, e.plainDS(), nd, "", &subs, &paths)
+		where := "-"
+		if len(subs) > 0 {
+			k := vh.Atoi(f[1]) % len(subs)
+			if e.plain == nil {
+				e.plain = e.dserv
+			}
+			e.fault = &faultDS{DAGService: e.plain, bad: subs[k]}
+			e.dserv = e.fault
+			where = paths[k]
+			o.Kind("fault-injected")
+		}
+		d2, err := uio.NewDirectoryFromNode(e.dserv, nd)
+		if err != nil {
+			o.Fail("reload", "NewDirectoryFromNode: %v", err)
+			o.Emit("%s", errTok(err))
+			return
+		}
+		e.d = d2
+		e.cfg.kind = "dyn"
+		e.cfg.maxLinks, e.cfg.fanout, e.cfg.pmode, e.cfg.pthr = 0, 0, "-", 0
+		o.Emit("ok fault=%s | %s", where, e.state(false))
 	case "setmaxlinks":
 		if !e.need() {
 			return
@@ -629,6 +702,39 @@ func toEntries(ls []*ipld.Link) []entry {
 }
 
 // ------------------------------------------------------------------ C16 monitors
+
+// opInfo: did the operation succeed; its exact size delta in the estimation mode in force (bare
+// names); HAMTDirectory.sizeChange before it (hook).
+type opInfo struct {
+	ok        bool
+	exactOp   int
+	chgBefore int
+	haveChg   bool
+}
+
+func (e *Exec) entrySize(name string, pn *PoolNode) int {
+	if e.d.GetSizeEstimationMode() == uio.SizeEstimationBlock {
+		return LinkSerializedSize(len(name), pn.CidLen, pn.Tsize)
+	}
+	return len(name) + pn.CidLen
+}
+
+func (e *Exec) prepOp(name string, add *PoolNode) {
+	e.last = opInfo{}
+	if old, ok := e.oracle[name]; ok {
+		e.last.exactOp -= e.entrySize(name, poolByID[old])
+	}
+	if add != nil {
+		e.last.exactOp += e.entrySize(name, add)
+	}
+	st := uio.VerifDirsState(e.ctx, e.d)
+	if strings.HasPrefix(st, "hamt chg=") {
+		f := strings.Fields(st)
+		if v, err := strconv.Atoi(strings.TrimPrefix(f[1], "chg=")); err == nil {
+			e.last.chgBefore, e.last.haveChg = v, true
+		}
+	}
+}
 
 type settings struct {
 	maxLinks, fanout, thr int
@@ -712,8 +818,8 @@ func (e *Exec) after(op, kindBefore string, before settings) {
 	if nb != bb {
 		o.Fail("setting-lost-builder", "%s: builder %s -> %s", op, before.builder, now.builder)
 	}
-	// the documented rule
-	if e.cfg.kind != "dyn" {
+	// the documented rule (a failed operation changed nothing: nothing new to judge)
+	if e.cfg.kind != "dyn" || !e.last.ok {
 		return
 	}
 	thr := e.effThr()
@@ -727,6 +833,9 @@ func (e *Exec) after(op, kindBefore string, before settings) {
 		if ml > 0 && len(e.oracle) > ml {
 			want = true
 		}
+	}
+	if want || kind != "hamt" {
+		e.belowMaxlinks = false
 	}
 	wasAbove := e.aboveBefore
 	e.aboveBefore = want && kind == "basic"
@@ -748,7 +857,17 @@ func (e *Exec) after(op, kindBefore string, before settings) {
 	if !want && kind == "hamt" && thr != 0 && kindBefore == "basic" {
 		o.Fail("rule-upgrade-early", "%s: sharded by this operation although the rule says basic (size %d thr %d count %d maxlinks %d mode %d)", op, e.ruleSize(mode), thr, len(e.oracle), ml, mode)
 	} else if !want && kind == "hamt" && thr != 0 {
-		o.Fail("rule-hamt-below", "%s: sharded although the rule says basic (size %d thr %d count %d maxlinks %d mode %d)", op, e.ruleSize(mode), thr, len(e.oracle), ml, mode)
+		// Which clause kept it sharded?  HAMT->basic needs canSwitchSize && canSwitchMaxLinks.  The known
+		// size-gate heuristic can only be the cause in a size-estimating mode, and not when the gate
+		// certainly fired and answered "below": sizeChange + delta < 0 already with the exact (bare-name)
+		// delta — the code's delta is never larger — and the exact new size is within the threshold
+		// (the rule says basic).  Then only the link-count clause can have blocked the conversion.
+		sig := "rule-hamt-below"
+		if mode == uio.SizeEstimationDisabled || (e.last.haveChg && e.last.chgBefore+e.last.exactOp < 0) {
+			sig = "rule-hamt-below-maxlinks"
+			e.belowMaxlinks = true
+		}
+		o.Fail(sig, "%s: sharded although the rule says basic (size %d thr %d count %d maxlinks %d mode %d)", op, e.ruleSize(mode), thr, len(e.oracle), ml, mode)
 	}
 }
 
@@ -815,6 +934,9 @@ func (e *Exec) fresh() {
 	sig := "cid-same-kind-" + k1
 	if k1 != k2 {
 		sig = "cid-history-" + k1 + "-fresh-" + k2
+		if k1 == "hamt" && e.belowMaxlinks {
+			sig += "-maxlinks"
+		}
 	}
 	o.Fail(sig, "root CID %s differs from the fresh build %s of the same %d entries", nd.Cid(), nd2.Cid(), len(names))
 	o.Emit("diff")
@@ -932,7 +1054,7 @@ func (e *Exec) checkDigitPaths(nd ipld.Node, path []int) {
 		}
 		p := append(append([]int(nil), path...), int(idx))
 		if len(l.Name) == pad {
-			if ch, err := l.GetNode(e.ctx, e.dserv); err == nil {
+			if ch, err := l.GetNode(e.ctx, e.plainDS()); err == nil {
 				e.checkDigitPaths(ch, p)
 			}
 			continue
@@ -960,6 +1082,78 @@ func (e *Exec) checkDigitPaths(nd ipld.Node, path []int) {
 				e.o.Fail("digit-path", "entry %q at level %d sits in slot %d, its hash digit is %d", name, lvl, want, d)
 				break
 			}
+		}
+	}
+}
+
+// ------------------------------------------------------------------ fault injection
+
+var errFault = errors.New("dirx: injected DAG service fault")
+
+// faultDS refuses one block (a sub-shard of a reloaded HAMT): Get and GetMany report errFault for it.
+type faultDS struct {
+	ipld.DAGService
+	bad cid.Cid
+}
+
+func (f *faultDS) Get(ctx context.Context, c cid.Cid) (ipld.Node, error) {
+	if c.Equals(f.bad) {
+		return nil, errFault
+	}
+	return f.DAGService.Get(ctx, c)
+}
+
+func (f *faultDS) GetMany(ctx context.Context, cs []cid.Cid) <-chan *ipld.NodeOption {
+	out := make(chan *ipld.NodeOption, len(cs))
+	go func() {
+		defer close(out)
+		for _, c := range cs {
+			nd, err := f.Get(ctx, c)
+			select {
+			case out <- &ipld.NodeOption{Node: nd, Err: err}:
+			case <-ctx.Done():
+				return
+			}
+		}
+	}()
+	return out
+}
+
+func (e *Exec) plainDS() ipld.DAGService {
+	if e.plain != nil {
+		return e.plain
+	}
+	return e.dserv
+}
+
+// collectSubShards lists the sub-shard links of a serialised HAMT in DFS pre-order with their
+// slot-index paths ("3.5").
+func collectSubShards(ctx context.Context, dserv ipld.DAGService, nd ipld.Node, prefix string, subs *[]cid.Cid, paths *[]string) {
+	pn, ok := nd.(*mdag.ProtoNode)
+	if !ok {
+		return
+	}
+	fsn, err := ft.FSNodeFromBytes(pn.Data())
+	if err != nil || fsn.Type() != ft.THAMTShard {
+		return
+	}
+	pad := len(fmt.Sprintf("%X", int(fsn.Fanout())-1))
+	for _, l := range pn.Links() {
+		if len(l.Name) != pad {
+			continue
+		}
+		idx, perr := strconv.ParseUint(l.Name, 16, 32)
+		if perr != nil {
+			continue
+		}
+		p := strconv.Itoa(int(idx))
+		if prefix != "" {
+			p = prefix + "." + p
+		}
+		*subs = append(*subs, l.Cid)
+		*paths = append(*paths, p)
+		if ch, err := l.GetNode(ctx, dserv); err == nil {
+			collectSubShards(ctx, dserv, ch, p, subs, paths)
 		}
 	}
 }
